@@ -590,6 +590,19 @@ class FlatGen:
                                         self.eq_func, self.eq_func, self.eq_der_expr]
         for _ in range(n_eq):
             r.choice(templ)()
+        if r.random() < 0.12 and len(self.scalars) >= 3:
+            # two functions with the same short name in different packages, both called in the model
+            c1, c2 = r.randint(2, 6), r.randint(2, 6)
+            self.m["funcs"].append({"name": "Qa.fs", "inputs": [("u", []), ("k", [])], "outputs": [("y", [])], "protected": [],
+                                    "stmts": [("assign", var("y"), ("bin", "+", ("bin", "*", var("k"), var("u")), num(c1)))]})
+            self.m["funcs"].append({"name": "Qb.fs", "inputs": [("u", []), ("k", [])], "outputs": [("y", [])], "protected": [],
+                                    "stmts": [("assign", var("y"), ("bin", "*", ("bin", "-", var("u"), var("k")), ("bin", "-", var("u"), num(c2))))]})
+            a, b, c = r.sample(self.scalars, 3)
+            order = [("Qa.fs", a), ("Qb.fs", b)]
+            r.shuffle(order)
+            for fn, tgt in order:
+                self.m["eqs"].append(("eq", var(tgt), ("call", fn, [var(c), num(r.randint(2, 5))])))
+            self.tags.add("core:functions-with-equal-short-names-in-different-packages")
         if r.random() < 0.35:
             for _ in range(r.randint(1, 2)):
                 self.eq_initial()
